@@ -200,6 +200,7 @@ Definition ev_step (s2 : cstate) (it : citer) : cstate * list cobs :=
   | EUnexpected | EKeepaliveBad => fatal s2 []
   | ENil | ECopyOther | EParam => (s2, [])
   | EErrorResponse x => recover s2 x
+  | EErrorResponseFail idf => let '(s3, o3) := recover_fail s2 idf in fatal s3 o3
   | EKeepalive _ false _ => (s2, [])
   | EKeepalive _ true slow =>
       if i_pclosed2 it then fatal s2 [] else
@@ -220,7 +221,7 @@ Proof.
   destruct (i_pclosed it); [rewrite hp_closed; reflexivity|].
   rewrite hp_shape. unfold head_out, head_sends, ev_step, recv_state, head_state, prog2.
   destruct (hp_upd s (i_prog it) || i_tick it); unfold get_start; destruct (i_dies it);
-    (destruct (i_ev it) as [w k| w [|] sl | | | | | | x | | |]; try reflexivity;
+    (destruct (i_ev it) as [w k| w [|] sl | | | | | | x | | | | idf]; try reflexivity;
      [ destruct k; unfold handle_xlog, write_loop, fatal; simpl; try reflexivity;
        try (destruct (saw_commit s), (first_iter s); simpl; try reflexivity);
        rewrite ?blocked_ticks_eq; cbv beta iota;
@@ -382,11 +383,11 @@ Proof. intros H first its. rewrite crun_fst. apply citers_fold. exact H. Qed.
 
 (* full case analysis of the handling of the received event (goal-directed) *)
 Ltac ev_an :=
-  unfold ev_step, prog2, fatal, recover, heartbeat, handle_xlog, write_loop;
+  unfold ev_step, prog2, fatal, recover, recover_fail, heartbeat, handle_xlog, write_loop;
   match goal with
   | |- context [i_ev ?it] =>
       let Hev := fresh "Hev" in
-      destruct (i_ev it) as [w [t|t|op| |]| w [|] sl | | | | | | x | | |] eqn:Hev
+      destruct (i_ev it) as [w [t|t|op| |]| w [|] sl | | | | | | x | | | | idf] eqn:Hev
   end;
   rewrite ?blocked_ticks_eq; cbv beta iota;
   repeat match goal with |- context [if ?c then _ else _] => destruct c eqn:? end;
@@ -489,7 +490,7 @@ Lemma cstep_highest_cases s it s' o : cstep s it = (s', o) ->
 Proof.
   intros H. pose proof (cstep_highest s it) as E. rewrite H in E. simpl in E.
   destruct (stopped s || i_pclosed it); [now left|].
-  destruct (i_ev it) as [w [t|t|op| |]| w [|] sl | | | | | | x | | |]; simpl in E; eauto 10.
+  destruct (i_ev it) as [w [t|t|op| |]| w [|] sl | | | | | | x | | | | idf]; simpl in E; eauto 10.
 Qed.
 
 (* connection requests made while handling the received event carry highestWalStart as it was at
@@ -754,7 +755,7 @@ Lemma ev_step_forget s2 t2 it : forget s2 = forget t2 ->
   acks (snd (ev_step s2 it)) = acks (snd (ev_step t2 (erase_it it))).
 Proof.
   intros H. unfold ev_step. cbn [erase_it i_ev i_blocked i_prog2 i_pclosed2 i_dies].
-  destruct (i_ev it) as [w k| w [|] sl | | | | | | x | | |]; cbn [erase_ev].
+  destruct (i_ev it) as [w k| w [|] sl | | | | | | x | | | | idf]; cbn [erase_ev].
   1: { destruct (handle_xlog_forget s2 t2 w k (i_blocked it) H) as (F & A & E).
        destruct (handle_xlog s2 w k (i_blocked it)) as [[s3 o3] f].
        destruct (handle_xlog t2 0 k (i_blocked it)) as [[t3 p3] f']. cbn [fst snd] in *. subst f'.
@@ -762,7 +763,7 @@ Proof.
        - split; [apply stop_forget; exact F|rewrite !acks_app, A; reflexivity].
        - split; assumption. }
   all: destruct s2, t2; unfold forget in H; simpl in H; inversion H; subst; clear H;
-       unfold prog2, fatal, recover, heartbeat, hp_val, forget; simpl;
+       unfold prog2, fatal, recover, recover_fail, heartbeat, hp_val, forget; simpl;
        repeat match goal with |- context [if ?c then _ else _] => destruct c eqn:? end; simpl; split; reflexivity.
 Qed.
 
@@ -864,7 +865,8 @@ Definition ev_couts (s : cstate) (e : cev) : list cobs :=
       if negb (saw_commit s) && negb (first_iter s) then [] else [COut "BEGIN" t (key_of t (begins s)) w]
   | EXLog w (XCommit _) => [COut "COMMIT" (ctxn s) (ckey s) w]
   | EXLog w (XChange op) => [COut op (ctxn s) (ckey s) w]
-  | EErrorResponse _ =>
+  | EErrorResponse _ | EErrorResponseFail _ =>
+      (* the synthetic COMMIT of recoverFromErrorResponse, whether the recovery then succeeds or not *)
       if negb (first_iter s) && negb (saw_commit s)
       then [COut "COMMIT" (ctxn s) (ckey s) (if (highest s =? 0)%N then overall s else highest s)]
       else []
@@ -906,8 +908,8 @@ Qed.
 Lemma ev_step_couts s2 it :
   couts (snd (ev_step s2 it)) = if write_fails s2 it then [] else ev_couts s2 (i_ev it).
 Proof.
-  unfold write_fails, reaches_write_loop, ev_couts, ev_step, prog2, fatal, recover, heartbeat, handle_xlog, write_loop.
-  destruct (i_ev it) as [w [t|t|op| |]| w [|] sl | | | | | | x | | |];
+  unfold write_fails, reaches_write_loop, ev_couts, ev_step, prog2, fatal, recover, recover_fail, heartbeat, handle_xlog, write_loop.
+  destruct (i_ev it) as [w [t|t|op| |]| w [|] sl | | | | | | x | | | | idf];
   rewrite ?blocked_ticks_eq; cbv beta iota;
   repeat (cbn [negb andb]; match goal with |- context [if ?c then _ else _] => destruct c eqn:? end);
   cbn [fst snd negb andb]; rewrite ?couts_app, ?couts_bt_obs; reflexivity.
@@ -936,7 +938,7 @@ Lemma ev_step_write_fails s2 it : write_fails s2 it = true -> stopped (fst (ev_s
 Proof.
   unfold write_fails, reaches_write_loop. intros H. apply andb_prop in H. destruct H as [Hr Hc].
   unfold ev_step, handle_xlog, write_loop.
-  destruct (i_ev it) as [w [t|t|op| |]| w [|] sl | | | | | | x | | |]; try discriminate Hr;
+  destruct (i_ev it) as [w [t|t|op| |]| w [|] sl | | | | | | x | | | | idf]; try discriminate Hr;
   rewrite ?blocked_ticks_eq, ?Hc; cbv beta iota; try reflexivity.
   apply negb_true_iff in Hr. rewrite Hr. reflexivity.
 Qed.
@@ -946,6 +948,23 @@ Lemma cstep_write_fails s it : stopped s = false -> i_pclosed it = false ->
 Proof.
   intros R Pc W. rewrite cstep_consumed by assumption. cbn [fst].
   apply ev_step_write_fails. rewrite write_fails_head. exact W.
+Qed.
+
+(* the server sent an ErrorResponse and the recovery fails: the client stops in this iteration *)
+Definition fails_recovery (e : cev) : bool :=
+  match e with EErrorResponseFail _ => true | _ => false end.
+
+Lemma ev_step_fails_recovery s2 it : fails_recovery (i_ev it) = true -> stopped (fst (ev_step s2 it)) = true.
+Proof.
+  unfold ev_step, fails_recovery, recover_fail, fatal. intros Fr.
+  destruct (i_ev it) as [w k| w r sl | | | | | | x | | | | idf]; try discriminate Fr. reflexivity.
+Qed.
+
+Lemma cstep_fails_recovery s it : stopped s = false -> i_pclosed it = false ->
+  fails_recovery (i_ev it) = true -> stopped (fst (cstep s it)) = true.
+Proof.
+  intros R Pc Fr. rewrite cstep_consumed by assumption. cbn [fst].
+  apply ev_step_fails_recovery. exact Fr.
 Qed.
 
 (* ---- the stamp (transaction id, delivery key, clock) and where it changes ---- *)
@@ -971,7 +990,7 @@ Proof.
 Qed.
 
 Lemma stamp_ev_begins_ge st e : (snd st <= snd (stamp_ev st e))%N.
-Proof. destruct e as [w [t|t|op| |]| | | | | | | | | |]; simpl; lia. Qed.
+Proof. destruct e as [w [t|t|op| |]| | | | | | | | | | |]; simpl; lia. Qed.
 
 Lemma cstart_stamp first : stamp_of (fst (cstart first)) = (""%string, ""%string, 0%N).
 Proof. unfold cstart, get_start, fatal. destruct first; reflexivity. Qed.
@@ -993,12 +1012,15 @@ Proof.
   pose proof (cstep_couts s it) as E. rewrite H in E. simpl in E. rewrite E in I2. clear E.
   destruct (stopped s || i_pclosed it || write_fails s it); [contradiction|].
   unfold ev_couts in I2.
-  destruct (i_ev it) as [w' [t'|t'|op'| |]| w' [|] sl | | | | | | x | | |]; try contradiction.
+  destruct (i_ev it) as [w' [t'|t'|op'| |]| w' [|] sl | | | | | | x | | | | idf]; try contradiction.
   - match type of I2 with context [if ?c then _ else _] => destruct c end; [contradiction|].
     destruct I2 as [I2|[]]. inversion I2; subst. left. eauto.
   - destruct I2 as [I2|[]]. inversion I2; subst. auto.
   - destruct I2 as [I2|[]]. inversion I2; subst. auto.
   - match type of I2 with context [if ?c then _ else _] => destruct c end; [|contradiction].
+    destruct I2 as [I2|[]]. inversion I2; subst. auto.
+  - (* the synthetic COMMIT of a recovery that then fails *)
+    match type of I2 with context [if ?c then _ else _] => destruct c end; [|contradiction].
     destruct I2 as [I2|[]]. inversion I2; subst. auto.
 Qed.
 
@@ -1012,7 +1034,7 @@ Proof.
   intros H. pose proof (cstep_stamp s it) as E. rewrite H in E. simpl in E. unfold stamp_of in E.
   destruct (stopped s); [inversion E; auto|]. destruct (i_pclosed it); [inversion E; auto|].
   simpl in E.
-  destruct (i_ev it) as [w' [t'|t'|op'| |]| w' [|] sl | | | | | | x | | |]; simpl in E; inversion E; auto.
+  destruct (i_ev it) as [w' [t'|t'|op'| |]| w' [|] sl | | | | | | x | | | | idf]; simpl in E; inversion E; auto.
   right. repeat split; auto. eauto 10.
 Qed.
 
@@ -1057,7 +1079,8 @@ Definition ev_begin_keys (s : cstate) (e : cev) : list string :=
 Definition ev_commit_keys (s : cstate) (e : cev) : list string :=
   match e with
   | EXLog _ (XCommit _) => [ckey s]
-  | EErrorResponse _ => if negb (first_iter s) && negb (saw_commit s) then [ckey s] else []
+  | EErrorResponse _ | EErrorResponseFail _ =>
+      if negb (first_iter s) && negb (saw_commit s) then [ckey s] else []
   | _ => []
   end.
 
@@ -1069,10 +1092,11 @@ Proof.
   destruct (stopped s || i_pclosed it || write_fails s it); [reflexivity|].
   unfold ev_couts, ev_begin_keys.
   cbn [head_state set_conn set_overall saw_commit first_iter ctxn ckey begins highest].
-  destruct (i_ev it) as [w' [t'|t'|op'| |]| w' [|] sl | | | | | | x | | |]; try reflexivity.
+  destruct (i_ev it) as [w' [t'|t'|op'| |]| w' [|] sl | | | | | | x | | | | idf]; try reflexivity.
   - destruct (negb (saw_commit s) && negb (first_iter s)); reflexivity.
   - simpl in Ok. apply andb_prop in Ok. destruct Ok as [Ok _]. apply negb_true_iff in Ok.
     simpl. rewrite Ok. reflexivity.
+  - destruct (negb (first_iter s) && negb (saw_commit s)); reflexivity.
   - destruct (negb (first_iter s) && negb (saw_commit s)); reflexivity.
 Qed.
 
@@ -1085,10 +1109,11 @@ Proof.
   destruct (stopped s || i_pclosed it || write_fails s it); [reflexivity|].
   unfold ev_couts, ev_commit_keys.
   cbn [head_state set_conn set_overall saw_commit first_iter ctxn ckey begins highest].
-  destruct (i_ev it) as [w' [t'|t'|op'| |]| w' [|] sl | | | | | | x | | |]; try reflexivity.
+  destruct (i_ev it) as [w' [t'|t'|op'| |]| w' [|] sl | | | | | | x | | | | idf]; try reflexivity.
   - destruct (negb (saw_commit s) && negb (first_iter s)); reflexivity.
   - simpl in Ok. apply andb_prop in Ok. destruct Ok as [_ Ok]. apply negb_true_iff in Ok.
     simpl. rewrite Ok. reflexivity.
+  - destruct (negb (first_iter s) && negb (saw_commit s)); reflexivity.
   - destruct (negb (first_iter s) && negb (saw_commit s)); reflexivity.
 Qed.
 
@@ -1143,7 +1168,7 @@ Proof.
         rewrite app_nil_r. apply IH; auto. rewrite St. eapply bounded_weaken; [exact B|].
         apply (stamp_ev_begins_ge (ctxn s, ckey s, begins s)). }
       unfold ev_begin_keys.
-      destruct (i_ev it) as [w' [t'|t'|op'| |]| w' [|] sl | | | | | | x | | |]; simpl in St;
+      destruct (i_ev it) as [w' [t'|t'|op'| |]| w' [|] sl | | | | | | x | | | | idf]; simpl in St;
         try (rewrite app_nil_r; apply IH; auto; rewrite St; exact B).
       destruct (negb (saw_commit s) && negb (first_iter s)).
       * rewrite app_nil_r. apply IH; auto. rewrite St. eapply bounded_weaken; [eassumption|lia].
@@ -1171,7 +1196,7 @@ Fixpoint stamps (n : N) (evs : list cev) : list string :=
 Lemma stamps_bounded evs : forall n k, In k (stamps n evs) -> exists t m, k = key_of t m /\ (n <= m)%N.
 Proof.
   induction evs as [|e evs IH]; intros n k; simpl; [intros []|].
-  destruct e as [w' [t'|t'|op'| |]| w' r sl | | | | | | x | | |]; try apply IH.
+  destruct e as [w' [t'|t'|op'| |]| w' r sl | | | | | | x | | | | idf]; try apply IH.
   intros [<-|I]; [exists t', n; split; [reflexivity|lia]|].
   destruct (IH _ _ I) as (t & m & E & L). exists t, m. split; [exact E|lia].
 Qed.
@@ -1179,7 +1204,7 @@ Qed.
 Lemma stamps_nodup evs : forall n, NoDup (stamps n evs).
 Proof.
   induction evs as [|e evs IH]; intros n; simpl; [constructor|].
-  destruct e as [w' [t'|t'|op'| |]| w' r sl | | | | | | x | | |]; try apply IH.
+  destruct e as [w' [t'|t'|op'| |]| w' r sl | | | | | | x | | | | idf]; try apply IH.
   constructor; [|apply IH]. intros I. destruct (stamps_bounded _ _ _ I) as (t & m & E & L).
   apply key_of_injective in E. destruct E as [_ E]. lia.
 Qed.
@@ -1195,7 +1220,7 @@ Lemma stamp_fold evs : forall t0 k0 n,
   snd (fold_left stamp_ev evs (t0, k0, n)) = (n + N.of_nat (List.length (stamps n evs)))%N.
 Proof.
   induction evs as [|e evs IH]; intros t0 k0 n; [simpl; split; [reflexivity|lia]|].
-  destruct e as [w' [t'|t'|op'| |]| w' r sl | | | | | | x | | |]; try apply IH.
+  destruct e as [w' [t'|t'|op'| |]| w' r sl | | | | | | x | | | | idf]; try apply IH.
   cbn [fold_left stamp_ev stamps snd]. destruct (IH t' (key_of t' n) (n + 1)%N) as [E1 E2].
   rewrite E1, E2, last_cons_default. split; [reflexivity|]. cbn [List.length]. lia.
 Qed.
@@ -1253,13 +1278,14 @@ Qed.
 (* [b] = the current stamp already has its COMMIT (or there is no stamp yet).  A BEGIN event makes
    a new stamp; a COMMIT is allowed only if the stamp has none yet; an ErrorResponse gives the
    open transaction, if any, its one (synthetic) COMMIT now: no further COMMIT may come before
-   the next BEGIN *)
+   the next BEGIN (the same when the recovery fails: the synthetic COMMIT is forwarded before the
+   failure, and the client stops) *)
 Fixpoint commits_ok (b : bool) (evs : list cev) : bool :=
   match evs with
   | [] => true
   | EXLog _ (XBegin _) :: r => commits_ok false r
   | EXLog _ (XCommit _) :: r => negb b && commits_ok true r
-  | EErrorResponse _ :: r => commits_ok true r
+  | EErrorResponse _ :: r | EErrorResponseFail _ :: r => commits_ok true r
   | _ :: r => commits_ok b r
   end.
 
@@ -1285,6 +1311,17 @@ Proof.
       rewrite citers_cons. cbn [snd]. unfold commit_keys. rewrite out_keys_app.
       pose proof (cstep_commit_keys s it Ok1) as E. unfold commit_keys in E. rewrite E, R, Pc, Wf. cbn [orb app].
       rewrite citers_stopped by (apply cstep_write_fails; assumption). simpl. rewrite app_nil_r. exact N. }
+    destruct (fails_recovery (i_ev it)) eqn:Fr.
+    { (* the recovery from an ErrorResponse fails: the open transaction, if any, has got its one
+         (synthetic) COMMIT; the client stops *)
+      rewrite citers_cons. cbn [snd]. unfold commit_keys. rewrite out_keys_app.
+      pose proof (cstep_commit_keys s it Ok1) as E. unfold commit_keys in E. rewrite E, R, Pc, Wf. cbn [orb].
+      rewrite citers_stopped by (apply cstep_fails_recovery; assumption). cbn [out_keys flat_map]. rewrite app_nil_r.
+      unfold ev_commit_keys, fails_recovery in *.
+      destruct (i_ev it) as [w' k'| w' r' sl | | | | | | x | | | | idf]; try discriminate Fr.
+      destruct (negb (first_iter s) && negb (saw_commit s)) eqn:Opn; [|rewrite app_nil_r; exact N].
+      destruct b; [pose proof (Op eq_refl) as Op'; unfold open_txn in Op'; congruence|].
+      destruct (J eq_refl) as (Nin & _). apply NoDup_snoc; assumption. }
     rewrite citers_cons. cbn [snd]. unfold commit_keys in *. rewrite out_keys_app, app_assoc.
     pose proof (cstep_commit_keys s it Ok1) as E. unfold commit_keys in E. rewrite Wf, orb_false_r in E.
     pose proof (cstep_stamp s it) as St. pose proof (cstep_flags s it) as Fl.
@@ -1295,9 +1332,10 @@ Proof.
     assert (Ff : first_iter s1 = fst (flags_ev (first_iter s, saw_commit s) (i_ev it))) by (rewrite <- Fl; reflexivity).
     assert (Fs : saw_commit s1 = snd (flags_ev (first_iter s, saw_commit s) (i_ev it))) by (rewrite <- Fl; reflexivity).
     clear St Fl. cbn [map] in Co. unfold ev_commit_keys. unfold open_txn in *.
-    destruct (i_ev it) as [w' [t'|t'|op'| |]| w' [|] sl | | | | | | x | | |];
+    destruct (i_ev it) as [w' [t'|t'|op'| |]| w' [|] sl | | | | | | x | | | | idf];
       cbn [commits_ok stamp_ev flags_ev fst snd] in *;
-      try (rewrite app_nil_r; apply (IH s1 K b); auto; (split; [|split]); unfold open_txn; rewrite ?Sb, ?Sk, ?Ff, ?Fs; assumption).
+      try (rewrite app_nil_r; apply (IH s1 K b); auto; (split; [|split]); unfold open_txn; rewrite ?Sb, ?Sk, ?Ff, ?Fs; assumption);
+      try (cbn in Fr; discriminate Fr).
     + (* BEGIN *)
       rewrite app_nil_r. apply (IH s1 K false); auto. split; [|split; [|discriminate]].
       * rewrite Sb. eapply bounded_weaken; [exact B|apply N.le_add_r].
@@ -1647,7 +1685,7 @@ Proof.
   unfold reaches_write_loop in Hr. unfold ev_step, ev_couts, handle_xlog, write_loop, recv_state.
   destruct (i_dies it);
   cbn [saw_commit first_iter set_conn head_state set_overall negb];
-  destruct (i_ev it) as [w [t|t|op| |]| w [|] sl | | | | | | x | | |]; try discriminate Hr;
+  destruct (i_ev it) as [w [t|t|op| |]| w [|] sl | | | | | | x | | | | idf]; try discriminate Hr;
   try (apply negb_true_iff in Hr; rewrite Hr);
   rewrite blocked_ticks_eq; cbv beta iota;
   (eexists; split; [reflexivity|]);
@@ -1679,7 +1717,7 @@ Proof.
   intros R. ev_an; rewrite ?R;
   (split; [split; intros H; [try discriminate H; first [simpl; tauto|apply in_or_app; right; simpl; tauto]
                             |try reflexivity; exfalso; in_split H; discriminate H]
-          |intros H; first [ now (exists []) | now (eexists [_]) | now (eexists [_; _])
+          |intros H; first [ now (exists []) | now (eexists [_]) | now (eexists [_; _]) | now (eexists [_; _; _])
                            | eexists; reflexivity
                            | exfalso; in_split H; discriminate H ]]).
 Qed.
@@ -1769,7 +1807,7 @@ Proof.
   pose proof (f_equal (fun p => snd (fst p)) St) as Sk. pose proof (f_equal snd St) as Sb.
   pose proof (f_equal fst Fl) as Ff. pose proof (f_equal snd Fl) as Fs. cbn beta in Sk. cbn [fst snd] in Sk, Sb, Ff, Fs.
   clear St Fl. intros _. unfold ev_begin_keys.
-  destruct (i_ev it) as [w' [t'|t'|op'| |]| w' [|] sl | | | | | | x | | |];
+  destruct (i_ev it) as [w' [t'|t'|op'| |]| w' [|] sl | | | | | | x | | | | idf];
     cbn [stamp_ev flags_ev fst snd] in *;
     try (rewrite app_nil_r, Sk, Ff, Fs; exact P);
     try (rewrite Ff, Fs; simpl; rewrite ?andb_false_r; discriminate).
@@ -1800,7 +1838,9 @@ Proof.
   unfold open_txn in O. rewrite F in O. discriminate.
 Qed.
 
-(* while a transaction is open, no COMMIT carrying its key has been forwarded yet *)
+(* while a transaction is open on a RUNNING client, no COMMIT carrying its key has been forwarded
+   yet.  (A client that stopped because the recovery from an ErrorResponse failed has forwarded the
+   synthetic COMMIT of the open transaction and keeps its flags: hence "running".) *)
 Definition bounded0 (b : N) (K : list string) : Prop :=
   forall k, In k K -> k = ""%string \/ exists t n, k = key_of t n /\ (n < b)%N.
 
@@ -1810,7 +1850,7 @@ Proof. unfold key_of. destruct t; simpl; discriminate. Qed.
 Definition first_commit_inv (s : cstate) (C : list string) : Prop :=
   bounded0 (begins s) C /\
   (ckey s = ""%string \/ exists t n, ckey s = key_of t n /\ (n < begins s)%N) /\
-  (open_txn s = true -> ~ In (ckey s) C).
+  (stopped s = false -> open_txn s = true -> ~ In (ckey s) C).
 
 Lemma bounded0_snoc b C k : bounded0 b C ->
   (k = ""%string \/ exists t n, k = key_of t n /\ (n < b)%N) -> bounded0 b (C ++ [k]).
@@ -1821,8 +1861,17 @@ Lemma cstep_first_commit s it C : ev_ok (i_ev it) = true -> first_commit_inv s C
 Proof.
   intros Ok (B & Kf & P). rewrite (cstep_commit_keys s it Ok).
   pose proof (cstep_stamp s it) as St. pose proof (cstep_flags s it) as Fl.
+  assert (Sm : stopped (fst (cstep s it)) = false ->
+               stopped s = false /\ i_pclosed it = false /\ fails_recovery (i_ev it) = false).
+  { intros R1. destruct (cstep s it) as [s1 o1] eqn:H. cbn [fst] in R1.
+    destruct (cstep_running_after _ _ _ _ H R1) as [R Pc]. split; [exact R|split; [exact Pc|]].
+    destruct (fails_recovery (i_ev it)) eqn:Fr; [|reflexivity].
+    pose proof (cstep_fails_recovery s it R Pc Fr) as X. rewrite H in X. cbn [fst] in X. congruence. }
   destruct (cstep s it) as [s1 o1]. cbn [fst snd] in *.
   unfold first_commit_inv, open_txn, stamp_of, flags_of in *.
+  assert (P' : stopped s1 = false -> negb (first_iter s) && negb (saw_commit s) = true -> ~ In (ckey s) C)
+    by (intros R1; apply P; apply Sm; exact R1).
+  clear P.
   pose proof (f_equal (fun p => snd (fst p)) St) as Sk. pose proof (f_equal snd St) as Sb.
   pose proof (f_equal fst Fl) as Ff. pose proof (f_equal snd Fl) as Fs. cbn beta in Sk. cbn [fst snd] in Sk, Sb, Ff, Fs.
   clear St Fl.
@@ -1831,29 +1880,29 @@ Proof.
   - destruct (write_fails s it) eqn:Wf.
     { (* the WriteLoop fails: the state is stamped / flagged, nothing is forwarded *)
       rewrite app_nil_r. unfold write_fails, reaches_write_loop in Wf.
-      destruct (i_ev it) as [w' [t'|t'|op'| |]| w' [|] sl | | | | | | x | | |]; try discriminate Wf;
+      destruct (i_ev it) as [w' [t'|t'|op'| |]| w' [|] sl | | | | | | x | | | | idf]; try discriminate Wf;
         cbn [stamp_ev flags_ev fst snd] in *.
       - rewrite Sk, Sb. split; [|split].
         + intros k I. destruct (B k I) as [E|(t & n & E & L)]; [now left|right].
-          exists t, n. split; [exact E|lia].
-        + right. exists t', (begins s). split; [reflexivity|lia].
-        + intros _ I. destruct (B _ I) as [E|(t & n & E & L)].
+          exists t, n. split; [exact E|clear - L; lia].
+        + right. exists t', (begins s). split; [reflexivity|clear; lia].
+        + intros _ _ I. destruct (B _ I) as [E|(t & n & E & L)].
           * exact (key_of_nonempty _ _ E).
-          * apply key_of_injective in E. destruct E as [_ E]. lia.
+          * apply key_of_injective in E. destruct E as [_ E]. clear - E L. lia.
       - rewrite Sk, Sb, Fs. split; [exact B|split; [exact Kf|]]. rewrite andb_false_r. discriminate.
       - rewrite Sk, Sb, Ff, Fs. auto. }
     unfold ev_commit_keys.
-    destruct (i_ev it) as [w' [t'|t'|op'| |]| w' [|] sl | | | | | | x | | |];
+    destruct (i_ev it) as [w' [t'|t'|op'| |]| w' [|] sl | | | | | | x | | | | idf];
       cbn [stamp_ev flags_ev fst snd] in *;
       try (rewrite app_nil_r, Sk, Sb, Ff, Fs; auto; fail).
     + (* BEGIN *)
       rewrite app_nil_r, Sk, Sb. split; [|split].
       * intros k I. destruct (B k I) as [E|(t & n & E & L)]; [now left|right].
-        exists t, n. split; [exact E|lia].
-      * right. exists t', (begins s). split; [reflexivity|lia].
-      * intros _ I. destruct (B _ I) as [E|(t & n & E & L)].
+        exists t, n. split; [exact E|clear - L; lia].
+      * right. exists t', (begins s). split; [reflexivity|clear; lia].
+      * intros _ _ I. destruct (B _ I) as [E|(t & n & E & L)].
         -- exact (key_of_nonempty _ _ E).
-        -- apply key_of_injective in E. destruct E as [_ E]. lia.
+        -- apply key_of_injective in E. destruct E as [_ E]. clear - E L. lia.
     + (* COMMIT *)
       rewrite Sk, Sb, Fs. split; [apply bounded0_snoc; assumption|split; [exact Kf|]].
       rewrite andb_false_r. discriminate.
@@ -1861,6 +1910,11 @@ Proof.
       rewrite Sk, Sb, Ff. split; [|split; [exact Kf|simpl; discriminate]].
       destruct (negb (first_iter s) && negb (saw_commit s)); [apply bounded0_snoc; assumption|].
       rewrite app_nil_r. exact B.
+    + (* ErrorResponse whose recovery fails: the synthetic COMMIT is forwarded, the client has stopped *)
+      rewrite Sk, Sb. split; [|split; [exact Kf|]].
+      * destruct (negb (first_iter s) && negb (saw_commit s)); [apply bounded0_snoc; assumption|].
+        rewrite app_nil_r. exact B.
+      * intros R1. destruct (Sm R1) as (_ & _ & Fr). cbn in Fr. discriminate Fr.
 Qed.
 
 Lemma citers_first_commit its : forall s C, script_ok its = true -> first_commit_inv s C ->
@@ -1874,6 +1928,7 @@ Proof.
 Qed.
 
 Lemma crun_first_commit first its : script_ok its = true ->
+  stopped (fst (crun first its)) = false ->
   open_txn (fst (crun first its)) = true ->
   ~ In (ckey (fst (crun first its))) (commit_keys (snd (crun first its))).
 Proof.
@@ -1883,7 +1938,7 @@ Proof.
   pose proof (cstart_stamp first) as St. unfold stamp_of in St.
   split; [intros k []|split].
   - left. apply (f_equal (fun p => snd (fst p))) in St. exact St.
-  - intros _ [].
+  - intros _ _ [].
 Qed.
 
 (* overall never decreases and starts at the session start position *)
